@@ -124,11 +124,18 @@ def rl_boundary_schedules():
     add = {"a": "Add", "dt": 1, "d": "N", "ch": "AB", "qs": 10, "qr": 10, "dur": 1}
     return [
         # reset between send and refund: the refund is outside the window and must not be subtracted
+        # (a second limited path keeps a pending marker throughout, so that Reset / Update / a refused Add happen
+        # while markers are pending: vacuity floors RL:pending:Reset, RL:pending:Update, RL:Add:err)
         {"id": "RL-b1", "kind": "RL", "acts": [
-            add, {"a": "Send", "dt": 1, "d": "N", "ch": "AB", "amt": 100, "fate": "to"},
+            add, {"a": "Add", "dt": 1, "d": "V", "ch": "AB", "qs": 10, "qr": 10, "dur": 2},
+            {"a": "Send", "dt": 1, "d": "N", "ch": "AB", "amt": 100, "fate": "to"},
+            {"a": "Send", "dt": 1, "d": "V", "ch": "AB", "amt": 15, "fate": "ok"},
             {"a": "Reset", "dt": 1, "d": "N", "ch": "AB"},
             {"a": "Send", "dt": 1, "d": "N", "ch": "AB", "amt": 50, "fate": "ok"},
-            {"a": "Timeout", "dt": 1, "pkt": _pk("AB", ns, "N", 100, "to")}]},
+            {"a": "Timeout", "dt": 1, "pkt": _pk("AB", ns, "N", 100, "to")},
+            add,
+            {"a": "Update", "dt": 1, "d": "N", "ch": "AB", "qs": 10, "qr": 10, "dur": 1},
+            {"a": "Ack", "dt": 1, "pkt": _pk("AB", ns + 2, "N", 50, "ok")}]},
         # exactly at the quota (400 of 4000 at 10 %), one above, refund, again
         {"id": "RL-b2", "kind": "RL", "acts": [
             add, {"a": "Send", "dt": 1, "d": "N", "ch": "AB", "amt": 400, "fate": "err"},
